@@ -55,7 +55,8 @@ def _norm_kw(node):
 
 class Rules2G(Rules2):
     def __init__(self, expr=(), iterable=None, skip_defs=(), nested_ret="{e}", fuel=None, fuel_out=None, skip=(),
-                 truthy=None, genexp=None, match_bind=None, **kw):
+                 truthy=None, genexp=None, match_bind=None, strings=None, typed=(), var_types=None, fuel_by_type=None,
+                 inline=False, **kw):
         expr = list(expr)
         self.expr_extra = [tuple(r[3:]) for r in expr]
         Rules2.__init__(self, expr=[tuple(r[:3]) for r in expr], **kw)
@@ -68,6 +69,18 @@ class Rules2G(Rules2):
         # `match m with | <err> => <leave the function with reraise> | <ok x> => …` — also inside loop bodies, where
         # the failure leaves the loop through the early-exit component of the loop state
         self.match_bind = match_bind
+        # strings: the one Lean value every string-valued expression (literal, merged / split literals, f-string,
+        #          `"..".format(..)`, `"..." % x`, `a + "..."`) is translated to — messages carry no decision
+        self.strings = strings
+        # typed / var_types: type marks.  `typed=[(pattern, tag)]` gives a tag to an expression, `var_types={param: tag}`
+        #          to a parameter; a local keeps the tag of what it was assigned from (also through renamings and
+        #          copies `a = b`), so `truthy` and `fuel_by_type` can be keyed by TAG instead of by variable name
+        self.typed = [(_norm_kw(_pat(p, "expr")), tag) for p, tag in typed]
+        self.var_types = dict(var_types or {})
+        self.fuel_by_type = dict(fuel_by_type or {})
+        # inline: calls of helper functions of the same module / class that no rule names are inlined at the call
+        #          site (the helper's body is translated with the same rules, as a local `fun`)
+        self.inline = inline
         self.iterable = iterable
         self.skip_defs = set(skip_defs)
         self.nested_ret = nested_ret
@@ -90,6 +103,10 @@ class Translator2G(Translator2):
         self._iters = set()
         self._truthy = set()
         self._local_defs = set()
+        self._vtype = dict(getattr(rules, "var_types", {}) or {})
+        self._inline_ns = {}
+        self._inline_depth = 0
+        self._ind = [2]
         self._no_hoist = 0
 
     # ------------------------------------------------------------------------------------------ helpers
@@ -112,9 +129,12 @@ class Translator2G(Translator2):
         for i, (pat, tmpl, flag) in enumerate(self.r.expr):
             env = {}
             if match(pat, node, env):
+                guard = next((x for x in self.r.expr_extra[i] if isinstance(x, dict)), None)
+                if guard and any(self._tag_of(env[mv]) != tag for mv, tag in guard.items()):
+                    continue          # a rule guarded by type marks: {metavariable: tag}
                 self.used_rules.add(i)
                 if flag == "mut":
-                    recv_mv, new_tmpl = self.r.expr_extra[i]
+                    recv_mv, new_tmpl = [x for x in self.r.expr_extra[i] if not isinstance(x, dict)][:2]
                     target = env[recv_mv]
                     if not isinstance(target, ast.Name) or target.id not in scope:
                         raise Untranslatable("effectful call on a non-variable: `%s`" % ast.unparse(node))
@@ -128,6 +148,11 @@ class Translator2G(Translator2):
                     scope[target.id] = new
                     return h, ""
                 return tmpl.format(**{k: self.pure(v, scope) for k, v in env.items()}), flag
+        if self.r.strings is not None and self._is_string(node):
+            return self.r.strings, ""
+        inl = self._try_inline(node, scope)
+        if inl is not None:
+            return inl, ""
         if (isinstance(node, ast.Compare) and len(node.ops) == 1 and isinstance(node.ops[0], (ast.Is, ast.IsNot))
                 and isinstance(node.comparators[0], ast.Constant) and node.comparators[0].value is None):
             x = self.pure(node.left, scope)
@@ -169,13 +194,157 @@ class Translator2G(Translator2):
         if id(node) in self._iters and self.r.iterable:
             e = self.r.iterable.format(e=e)
         if id(node) in self._truthy:
-            e = self.r.truthy[node.id].format(e=e)
+            key = node.id if node.id in self.r.truthy else self._vtype.get(node.id)
+            if key in self.r.truthy:
+                e = self.r.truthy[key].format(e=e)
         return e
 
     def _mark_truthy(self, node):
-        """a bare variable in a boolean context: Python's truth value of it (the rules say what that is)"""
-        if isinstance(node, ast.Name) and node.id in self.r.truthy:
+        """a bare variable in a boolean context: Python's truth value of it (the rules say what that is, by the
+        variable's name or by its type mark)"""
+        if isinstance(node, ast.Name) and (node.id in self.r.truthy or self._vtype.get(node.id) in self.r.truthy):
             self._truthy.add(id(node))
+
+    def _tag_of(self, node):
+        if isinstance(node, ast.Name):
+            return self._vtype.get(node.id)
+        for pat, tag in self.r.typed:
+            if match(pat, node, {}):
+                return tag
+        for i, (pat, _t, flag) in enumerate(self.r.expr):          # `xs.pop(0)`-like rules keep no tag
+            if flag == "mut" and match(pat, node, {}):
+                return None
+        return None
+
+    def _is_string(self, node):
+        if isinstance(node, ast.Constant):
+            return isinstance(node.value, str)
+        if isinstance(node, ast.JoinedStr):
+            return True
+        if isinstance(node, ast.Call) and isinstance(node.func, ast.Attribute) and node.func.attr == "format":
+            return self._is_string(node.func.value)
+        if isinstance(node, ast.BinOp) and isinstance(node.op, (ast.Add, ast.Mod)):
+            return self._is_string(node.left) or (isinstance(node.op, ast.Add) and self._is_string(node.right))
+        return False
+
+    # ------------------------------------------------------------------------------------------ helper inlining
+    def _resolve_helper(self, func, scope):
+        """(python function, receiver node or None) for `helper(..)`, `self.helper(..)`, `cls.helper(..)`,
+        `ClassName.helper(..)` when the helper lives in the module / class of the translated function"""
+        if not self.r.inline or not self._inline_ns:
+            return None, None
+        import inspect
+        if isinstance(func, ast.Name) and func.id not in scope:
+            f = self._inline_ns.get(func.id)
+            return (f, None) if inspect.isfunction(f) else (None, None)
+        if isinstance(func, ast.Attribute) and isinstance(func.value, ast.Name):
+            owner = func.value.id
+            cls = self._inline_ns.get("\0class")
+            if cls is not None and (owner in ("self", "cls") or owner == cls.__name__) and func.attr in vars(cls):
+                raw = vars(cls)[func.attr]
+                if isinstance(raw, staticmethod):
+                    return raw.__func__, None
+                if isinstance(raw, classmethod):
+                    return raw.__func__, func.value
+                if inspect.isfunction(raw):
+                    return raw, (func.value if owner == "self" else None)
+        return None, None
+
+    def _splice_helper(self, call, scope):
+        """a helper called as a STATEMENT (`_check(x)`: it can only raise or do nothing the model sees): its body is
+        spliced in place, locals renamed apart; only helpers whose single exit besides `raise` is the end of the body"""
+        fn, recv = self._resolve_helper(call.func, scope)
+        if fn is None or self._inline_depth >= 3 or call.keywords or any(isinstance(a, ast.Starred) for a in call.args):
+            return None
+        try:
+            hnode, _src = source_ast(fn)
+        except (OSError, TypeError, Untranslatable):
+            return None
+        a = hnode.args
+        if a.vararg or a.kwarg or a.kwonlyargs or a.posonlyargs or a.defaults or _contains_yield(hnode.body):
+            return None
+        body = [st for st in hnode.body
+                if not (isinstance(st, ast.Expr) and isinstance(st.value, ast.Constant) and isinstance(st.value.value, str))]
+        if body and isinstance(body[-1], ast.Return) and body[-1].value is None:
+            body = body[:-1]
+        if any(isinstance(n, (ast.Return, ast.FunctionDef, ast.Lambda)) for st in body for n in ast.walk(st)):
+            return None
+        params = [x.arg for x in a.args]
+        args = ([recv] if recv is not None else []) + list(call.args)
+        if len(args) != len(params):
+            return None
+        prefix = (hnode.name.strip("_") or "helper") + "__"
+        local = set(params)
+        for st in body:
+            for n in ast.walk(st):
+                if isinstance(n, ast.Name) and isinstance(n.ctx, ast.Store):
+                    local.add(n.id)
+
+        class Ren(ast.NodeTransformer):
+            def visit_Name(self, n):
+                return ast.copy_location(ast.Name(id=prefix + n.id, ctx=n.ctx), n) if n.id in local else n
+        new = [ast.Assign(targets=[ast.Name(id=prefix + pn, ctx=ast.Store())], value=arg) for pn, arg in zip(params, args)]
+        new += [Ren().visit(_copy.deepcopy(st)) for st in body]
+        for st in new:
+            ast.fix_missing_locations(st)
+        _norm_kw(ast.Module(body=new, type_ignores=[]))
+        return new or [ast.Pass()]
+
+    def _try_inline(self, node, scope):
+        if not isinstance(node, ast.Call) or not self.r.inline:
+            return None
+        fn, recv = self._resolve_helper(node.func, scope)
+        if fn is None or self._inline_depth >= 3 or not self._frames:
+            return None          # (the local `fun` is only a definition: it may be hoisted out of anything)
+        if node.keywords or any(isinstance(a, ast.Starred) for a in node.args):
+            return None
+        try:
+            hnode, _src = source_ast(fn)
+        except (OSError, TypeError, Untranslatable):
+            return None
+        a = hnode.args
+        if a.vararg or a.kwarg or a.kwonlyargs or a.posonlyargs or _contains_yield(hnode.body):
+            return None
+        params = [x.arg for x in a.args]
+        args = ([recv] if recv is not None else []) + list(node.args)
+        defaults = dict(zip(params[len(params) - len(a.defaults):], a.defaults))
+        actual = []
+        for i, pn in enumerate(params):
+            if i < len(args):
+                actual.append(self.pure(args[i], scope))
+            elif pn in defaults and isinstance(defaults[pn], ast.Constant):
+                actual.append(self.pure(defaults[pn], {}))
+            else:
+                return None
+        if len(args) > len(params):
+            return None
+        _norm_kw(hnode)
+        hnode.body = _norm_append_loops(hnode.body)
+        sc, names = {}, []
+        for k, v in scope.items():                      # only the temporaries' names (to keep fresh names apart)
+            if k.startswith("\0tmp"):
+                sc[k] = v
+        for pn in params:
+            new = self.fresh(pn, dict(scope, **sc))
+            sc[pn] = new
+            sc["\0tmp" + new] = new
+            names.append(new)
+
+        def end(_s, _i):
+            raise Untranslatable("helper `%s` may fall off its end" % hnode.name)
+        inner = _Ctx(exit_=lambda v, s_, i: "  " * i + v, end=end)
+        saved = (self.r.ret, self.r.end, dict(self._vtype))
+        self.r.ret, self.r.end = self.r.nested_ret, None
+        self._inline_depth += 1
+        try:
+            body = self.block(list(hnode.body), sc, self._ind[-1] + 2, inner)
+        finally:
+            self.r.ret, self.r.end = saved[0], saved[1]
+            self._vtype = saved[2]
+            self._inline_depth -= 1
+        name = self._tmp(scope, hnode.name.strip("_") or "helper")
+        self._frames[-1].append(("let", name, "fun %s =>\n%s" % (" ".join(names) if names else "(_ : Unit)", body)))
+        return "(%s %s)" % (name, " ".join(actual) if actual else "()")
 
     def comprehension(self, node, scope, kind):
         if node.generators:
@@ -219,6 +388,13 @@ class Translator2G(Translator2):
         return out
 
     def block(self, stmts, scope, ind, ctx):
+        self._ind.append(ind)
+        try:
+            return self._block0(stmts, scope, ind, ctx)
+        finally:
+            self._ind.pop()
+
+    def _block0(self, stmts, scope, ind, ctx):
         self._frames.append([])
         saved, self._no_hoist = self._no_hoist, 0
         try:
@@ -261,8 +437,19 @@ class Translator2G(Translator2):
         if not stmts:
             return ctx.end(scope, ind)
         st, rest = stmts[0], stmts[1:]
-        if isinstance(st, (ast.Import, ast.ImportFrom)) or self._is_noop([st]):
+        if isinstance(st, (ast.Import, ast.ImportFrom)) or self._is_noop([st], scope=scope):
             return self.block(rest, scope, ind, ctx)
+        if isinstance(st, ast.Expr) and isinstance(st.value, ast.Call) and self.r.inline \
+                and not any(match(p_, st, {}) for p_, _r, _t in self.r.stmt):
+            spliced = self._splice_helper(st.value, scope)
+            if spliced is not None:
+                return self.block(spliced + rest, scope, ind, ctx)
+        if isinstance(st, ast.Assign) and len(st.targets) == 1 and isinstance(st.targets[0], ast.Name):
+            tag = self._tag_of(st.value)
+            if tag is None:
+                self._vtype.pop(st.targets[0].id, None)
+            else:
+                self._vtype[st.targets[0].id] = tag
         if isinstance(st, ast.If):
             self._mark_truthy(st.test)
             if isinstance(st.test, ast.BoolOp):
@@ -315,20 +502,53 @@ class Translator2G(Translator2):
             return self._while(st, rest, scope, ind, ctx)
         return Translator2.block(self, stmts, scope, ind, ctx)
 
-    def _is_noop(self, stmts):
-        """statements the rules drop (`skip`), and `if` / `for` built from nothing else"""
+    PURE_CALLS = ("isinstance", "hasattr", "callable", "len")
+
+    def _pure_expr(self, node):
+        """an expression whose evaluation cannot change anything (type tests, comparisons, names, constants)"""
+        if isinstance(node, (ast.Name, ast.Constant)):
+            return True
+        if isinstance(node, ast.Attribute):
+            return self._pure_expr(node.value)
+        if isinstance(node, ast.BoolOp):
+            return all(self._pure_expr(v) for v in node.values)
+        if isinstance(node, ast.UnaryOp):
+            return self._pure_expr(node.operand)
+        if isinstance(node, ast.Compare):
+            return self._pure_expr(node.left) and all(self._pure_expr(c) for c in node.comparators)
+        if isinstance(node, ast.Call) and isinstance(node.func, ast.Name) and node.func.id in self.PURE_CALLS \
+                and not node.keywords:
+            return all(self._pure_expr(a) for a in node.args)
+        return False
+
+    def _is_noop(self, stmts, in_loop=False, scope=None, local=None):
+        """statements the rules drop (`skip`), and `if` / `for` built from nothing else; inside such a loop also
+        `continue` and assignments of effect-free expressions to names that exist only inside the loop"""
+        if not self.r.skip:
+            return False
+        local = set() if local is None else local
         for st in stmts:
             if isinstance(st, ast.Pass):
                 continue
             if any(match(p, st, {}) for p in self.r.skip):
                 continue
-            if isinstance(st, ast.If) and self._is_noop(st.body) and self._is_noop(st.orelse) and (st.body or st.orelse) \
-                    and self.r.skip:
+            if in_loop and isinstance(st, ast.Continue):
                 continue
-            if isinstance(st, ast.For) and not st.orelse and self._is_noop(st.body) and self.r.skip:
+            if in_loop and isinstance(st, ast.Assign) and len(st.targets) == 1 and isinstance(st.targets[0], ast.Name) \
+                    and (scope is None or st.targets[0].id not in scope) and self._pure_expr(st.value):
+                local.add(st.targets[0].id)
+                continue
+            if isinstance(st, ast.If) and (st.body or st.orelse) and self._pure_test(st.test) \
+                    and self._is_noop(st.body or [ast.Pass()], in_loop, scope, local) \
+                    and self._is_noop(st.orelse or [ast.Pass()], in_loop, scope, local):
+                continue
+            if isinstance(st, ast.For) and not st.orelse and self._is_noop(st.body, True, scope, local):
                 continue
             return False
         return bool(stmts)
+
+    def _pure_test(self, node):
+        return self._pure_expr(node)
 
     def _nested(self, st, rest, scope, ind, ctx):
         pad = "  " * ind
@@ -366,7 +586,7 @@ class Translator2G(Translator2):
             raise Untranslatable("while/else")
         if self._has(st.body, (ast.Return, ast.Raise, ast.Assert, ast.Break, ast.Continue), True):
             raise Untranslatable("while loop with break / continue / return / raise in its body")
-        if self.r.fuel is None or self.r.fuel_out is None:
+        if (self.r.fuel is None and not self.r.fuel_by_type) or self.r.fuel_out is None:
             raise Untranslatable("while loop, and the rules give no fuel")
         carried = [n for n in self.assigned_names(st.body) if n in scope]
         if not carried:
@@ -393,7 +613,16 @@ class Translator2G(Translator2):
         inner = _Ctx(exit_=None, end=lambda s, i: "  " * i + _tuple([s[c] for c in carried]), brk=no_brk)
         body = self.block(list(st.body), dict(sc), ind + 2, inner)
         res = self._tmp(sc0, "w")
-        fuel = self._fmt(self.r.fuel, scope)
+        try:
+            if self.r.fuel is None:
+                raise Untranslatable("no fuel template")
+            fuel = self._fmt(self.r.fuel, scope)
+        except Untranslatable:
+            parts = [self.r.fuel_by_type[self._vtype[c]].format(e=scope[c]) for c in carried
+                     if self._vtype.get(c) in self.r.fuel_by_type]
+            if not parts:
+                raise
+            fuel = " + ".join(parts)
         init = _tuple([scope[c] for c in carried])
         out = "%smatch MenpoModel.Py.whileG (%s) %s (fun %s =>\n%s%s%s) (fun %s =>\n%s%s) with\n" % (
             pad, fuel, init, acc, lets, p3, cond, acc, lets, body)
@@ -419,6 +648,8 @@ class Translator2G(Translator2):
 
     def function_node(self, node, arg_names, ind=2, allow_unused=()):
         _norm_kw(node)
+        node.body = _norm_append_loops(node.body)
+        self._vtype = dict(self.r.var_types)
         a = node.args
         params = [x.arg for x in a.posonlyargs + a.args + a.kwonlyargs]
         if a.vararg:
@@ -441,6 +672,7 @@ class Translator2G(Translator2):
 
     def function(self, fn, arg_names, ind=2, allow_unused=()):
         node, _src = source_ast(fn)
+        self._inline_ns = helper_namespace(fn) if self.r.inline else {}
         return self.function_node(node, arg_names, ind, allow_unused)
 
     @staticmethod
@@ -465,3 +697,61 @@ def _contains_yield_own(stmts):
                 return True
         return False
     return any(isinstance(st, ast.Expr) and isinstance(st.value, (ast.Yield, ast.YieldFrom)) or walk(st) for st in stmts)
+
+
+def helper_namespace(fn):
+    """the functions a body can call by name: those defined in the module of `fn` (not imported ones), plus — under the
+    key "\\0class" — the class `fn` is a method of"""
+    import inspect
+    import sys
+    fn = getattr(fn, "__func__", fn)
+    mod = sys.modules.get(fn.__module__)
+    ns = {}
+    if mod is not None:
+        for k, v in vars(mod).items():
+            if inspect.isfunction(v) and v.__module__ == fn.__module__ and v is not fn:
+                ns[k] = v
+        parts = fn.__qualname__.split(".")
+        if len(parts) >= 2 and "<locals>" not in parts:
+            cls = getattr(mod, parts[-2], None)
+            if inspect.isclass(cls):
+                ns["\0class"] = cls
+    return ns
+
+
+def _mentions(node, name):
+    return any(isinstance(n, ast.Name) and n.id == name for n in ast.walk(node))
+
+
+def _norm_append_loops(stmts):
+    """canonical form of list-building loops:  `xs = []` directly followed by `for t in it: xs.append(e)` (optionally
+    under one `if c:`) is the comprehension `xs = [e for t in it if c]` (when e, c, it do not mention xs)"""
+    out, i = [], 0
+    stmts = list(stmts)
+    while i < len(stmts):
+        st = stmts[i]
+        for f in ("body", "orelse"):
+            if isinstance(st, (ast.If, ast.For, ast.While)) and getattr(st, f, None):
+                setattr(st, f, _norm_append_loops(getattr(st, f)))
+        nxt = stmts[i + 1] if i + 1 < len(stmts) else None
+        if (isinstance(st, ast.Assign) and len(st.targets) == 1 and isinstance(st.targets[0], ast.Name)
+                and isinstance(st.value, ast.List) and not st.value.elts and isinstance(nxt, ast.For) and not nxt.orelse
+                and len(nxt.body) == 1):
+            x = st.targets[0].id
+            inner, ifs = nxt.body[0], []
+            if isinstance(inner, ast.If) and not inner.orelse and len(inner.body) == 1:
+                ifs, inner = [inner.test], inner.body[0]
+            if (isinstance(inner, ast.Expr) and isinstance(inner.value, ast.Call) and isinstance(inner.value.func, ast.Attribute)
+                    and inner.value.func.attr == "append" and isinstance(inner.value.func.value, ast.Name)
+                    and inner.value.func.value.id == x and len(inner.value.args) == 1 and not inner.value.keywords
+                    and not _mentions(inner.value.args[0], x) and not _mentions(nxt.iter, x)
+                    and not any(_mentions(c, x) for c in ifs)):
+                comp = ast.ListComp(elt=inner.value.args[0], generators=[ast.comprehension(
+                    target=nxt.target, iter=nxt.iter, ifs=ifs, is_async=0)])
+                out.append(ast.fix_missing_locations(ast.copy_location(
+                    ast.Assign(targets=[ast.Name(id=x, ctx=ast.Store())], value=comp), st)))
+                i += 2
+                continue
+        out.append(st)
+        i += 1
+    return out
